@@ -11,8 +11,9 @@ Local Open Scope ring_scope.
 Section EvalLaws.
 Variable R : comRingType.
 Variables (al : alg) (d : nat) (entries : seq (seq R)).
-Local Notation eval := (eval al d entries).
-Local Notation parse := (parse al d entries).
+Variables (scalars : seq (R * R)) (matrices : seq (seq (seq R))).
+Local Notation eval := (eval al d entries scalars matrices).
+Local Notation parse := (parse al d entries scalars matrices).
 
 (* special names denote the vocabulary's own algebra's elements *)
 Theorem special_is_own_element s :
@@ -58,7 +59,7 @@ Proof. by rewrite /= => -> ->. Qed.
 Theorem invert_uses_own_algebra a x :
   eval a = inr (VPtr x) ->
   eval (EInv a) = match alg_invert al (sv_core x) STwo with
-                  | Ok w => inr (VPtr (SVal (wval w) (sv_num x) (sv_den x)))
+                  | Ok w => inr (VPtr (SVal (wval w) (sv_num x) (sv_den x) (sv_div x)))
                   | Err er => inl (PExn er)
                   end.
 Proof. by rewrite /= => ->. Qed.
